@@ -241,3 +241,8 @@ Definition prov_bool_run (nv : N -> Z) (fuel : nat) (P : list rule) (F : list fa
       | negrules => let d := neg_pass nv negrules all in Some (all ++ d, new ++ d)
       end
   end.
+
+(* ---- shared/src/rule.rs: check_rule_safety (called by Reasoner::try_add_rule) ------------------- *)
+(* every variable of a negated atom must occur in a positive premise; otherwise the rule is rejected *)
+Definition check_rule_safety (r : rule) : bool :=
+  forallb (fun x => nmem x (atoms_vars (prem r))) (atoms_vars (negp r)).
